@@ -492,7 +492,7 @@ def parse_gapcheck(line):
 # ---------------------------------------------------------------------------------------------
 # Shrinking
 
-def shrink(exe, src, key, budget=40):
+def shrink(exe, src, key, budget=12):
     """Greedy line / token-chunk removal keeping `classify` == key on a parseable input."""
     def still(cands):
         obs = observe(exe, cands)
